@@ -349,7 +349,7 @@ func checkC25(c *Ctx, r *Report) {
 						isData = true
 					}
 				}
-				if p, ok := ta.X.(*ssa.Parameter); ok && f.Parent() != nil && paramIndex(f, p) == len(f.Params)-1 && c.isRetryCallback(f) {
+				if p, ok := ta.X.(*ssa.Parameter); ok && paramIndex(f, p) == len(f.Params)-1 && c.isRetryCallback(f) {
 					isData = true
 				}
 				if isData && (rel == "gateway" || rel == "client") {
@@ -603,27 +603,79 @@ func uniq(xs []string) []string {
 }
 
 func (c *Ctx) isRetryCallback(f *ssa.Function) bool {
-	p := f.Parent()
-	if p == nil {
-		return false
+	return len(c.retryCallbackUsers(f)) > 0
+}
+
+// retryCallbackOf resolves the retry-callback argument of a NewRetryTransaction call: a closure literal, a bound
+// method, a function, or the closure returned by a factory function of the repository.
+func (c *Ctx) retryCallbackOf(call *ssa.Call) *ssa.Function {
+	if len(call.Call.Args) < 4 {
+		return nil
 	}
-	found := false
-	allInstrs(p, func(i ssa.Instruction) {
-		if call, ok := i.(*ssa.Call); ok && calleeName(&call.Call) == pkTrans+".NewRetryTransaction" {
-			arg := call.Call.Args[3]
-			for {
-				if ct, ok := arg.(*ssa.ChangeType); ok {
-					arg = ct.X
-					continue
-				}
-				break
-			}
-			if mc, ok := arg.(*ssa.MakeClosure); ok && mc.Fn == f {
-				found = true
-			}
+	arg := call.Call.Args[3]
+	for {
+		if ct, ok := arg.(*ssa.ChangeType); ok {
+			arg = ct.X
+			continue
 		}
-	})
-	return found
+		break
+	}
+	switch x := arg.(type) {
+	case *ssa.MakeClosure:
+		if t := boundTarget(x); t != nil {
+			return t
+		}
+		f, _ := x.Fn.(*ssa.Function)
+		return f
+	case *ssa.Function:
+		return x
+	case *ssa.Call:
+		g := staticCallee(&x.Call)
+		if g == nil || g.Blocks == nil || !strings.HasPrefix(fnPkgPath(g), modPath) {
+			return nil
+		}
+		var out *ssa.Function
+		for _, b := range g.Blocks {
+			ret, ok := b.Instrs[len(b.Instrs)-1].(*ssa.Return)
+			if !ok || len(ret.Results) != 1 {
+				continue
+			}
+			v := ret.Results[0]
+			if ct, ok := v.(*ssa.ChangeType); ok {
+				v = ct.X
+			}
+			mc, ok := v.(*ssa.MakeClosure)
+			if !ok {
+				return nil
+			}
+			f, _ := mc.Fn.(*ssa.Function)
+			if out != nil && out != f {
+				return nil
+			}
+			out = f
+		}
+		return out
+	}
+	return nil
+}
+
+// retryCallbackUsers: the top-level functions (transaction constructors) that hand f to NewRetryTransaction.
+func (c *Ctx) retryCallbackUsers(f *ssa.Function) map[*ssa.Function]bool {
+	out := map[*ssa.Function]bool{}
+	for _, rel := range []string{"gateway", "client"} {
+		for _, g := range c.repoFuncs(rel) {
+			allInstrs(g, func(i ssa.Instruction) {
+				if call, ok := i.(*ssa.Call); ok && calleeName(&call.Call) == pkTrans+".NewRetryTransaction" && c.retryCallbackOf(call) == f {
+					top := g
+					for top.Parent() != nil {
+						top = top.Parent()
+					}
+					out[top] = true
+				}
+			})
+		}
+	}
+	return out
 }
 
 // assertionCtors: the constructors whose transactions an assertion in f is about.
@@ -631,6 +683,9 @@ func (c *Ctx) assertionCtors(rel string, f *ssa.Function) map[*ssa.Function]bool
 	top := f
 	for top.Parent() != nil {
 		top = top.Parent()
+	}
+	if us := c.retryCallbackUsers(f); len(us) > 0 {
+		return us
 	}
 	if f.Parent() != nil {
 		return map[*ssa.Function]bool{top: true}
